@@ -55,60 +55,88 @@ def check_rl_rows(ctx: Ctx, rule: str, m: S.SchemeModel, rows, label: str):
 
 
 def check_elision(ctx: Ctx, rule: str = "R06.b"):
-    """R06.b: fraction_numerator_is_nonzero answers True only for a**-1 and products of accepted factors."""
+    """R06.b: fraction_numerator_is_nonzero answers True only for a**-1 and for products whose factors are all either
+    constants known to be non-zero or themselves accepted.  Judged on the value the function computes (sa.av:
+    early returns, partition loops, for/else and comprehensions give the same term), specialised for the three
+    kinds of argument."""
+    import re
+
+    from sa import av
+
+    from . import util
+
     f = ctx.sm.func("schemes.py", "fraction_numerator_is_nonzero")
     p = f.params[0]
-    rets = [n for n in ast.walk(f.node) if isinstance(n, ast.Return)]
-    ctx.require(rets, "fraction_numerator_is_nonzero has no return statements")
-    n_true = 0
-    for r in rets:
-        v = r.value
-        chain = common.cond_chain(f.node, r) or []
-        chain_txt = [(c.replace("sympy.", "").replace("sp.", ""), pol) for c, pol in chain]
-        is_true = isinstance(v, ast.Constant) and v.value is True
-        is_false = isinstance(v, ast.Constant) and v.value is False
-        key = f.key(f"return::{norm(r)}::{[c for c, _ in chain_txt]}")
-        if is_false:
-            ctx.ok(rule, key, "conservative answer (guard kept)", f.where(r))
+    v = util.value_of(ctx, f)
+    if av.has_unk(v):
+        ctx.undecided(rule, f.key("decision"), f"the decision procedure is not understood ({av.find_all(v, 'unk')[0][1]})", f.where())
+        return
+    isa = lambda cls: ("call", "isinstance", (("sym", p), ("sym", cls)), ())  # noqa: E731
+    P, M = isa("sympy.Pow"), isa("sympy.Mul")
+    if not (av.find_all(v, "call") and P in av.find_all(v, "call") and M in av.find_all(v, "call")):
+        ctx.undecided(rule, f.key("decision"), f"the function does not distinguish sympy.Pow / sympy.Mul arguments by isinstance ({av.show(v)[:120]})", f.where())
+        return
+    dflt = av.subst(v, {P: av.C(False), M: av.C(False)})
+    ctx.check(dflt == av.C(False), rule, f.key("default"), "anything that is neither a power nor a product: False (guard kept)", f"fraction_numerator_is_nonzero answers {av.show(dflt)[:100]} for an expression that is neither a**-1 nor a product; the zero-division guard would be dropped for it", f.where())
+    pw = av.subst(v, {P: av.C(True)})
+    okp = re.fullmatch(r"\(" + re.escape(p) + r"\.(args\[1\]|exp) (is|==) (sympy\.S\.NegativeOne|-1)\)", av.show(pw)) is not None
+    ctx.check(okp, rule, f.key("power"), "a power is accepted only when the exponent is -1", f"for a Pow the answer is {av.show(pw)[:120]}, not `exponent is -1`: other powers (x**2 is zero at x = 0) would lose their guard", f.where())
+    ml = av.subst(v, {P: av.C(False), M: av.C(True)})
+    # leaves of the answer for a product: all(rec(x) for x in <factors that are not (constant and non-zero)>),
+    # True only when no factor remains, False
+    from .c03 import _branches
+
+    nz_attr = "is_nonzero"
+    verdicts = []
+
+    def filter_ok(seq):
+        """seq is expr.args or expr.args filtered by not(constant and non-zero) -> (ok, why)"""
+        seq = av._unwrap_seq(seq)
+        if seq == ("sym", f"{p}.args"):
+            return True, ""
+        if seq[0] == "comp" and seq[2] == ("sym", f"{p}.args") and seq[3] == (("bv", seq[1]),) and len(seq[4]) == 1:
+            k = seq[4][0]
+            bv = ("bv", seq[1])
+            nz = ("attr", bv, nz_attr)
+            const_tests = [("not", ("attr", bv, "free_symbols")), ("attr", bv, "is_number"), ("attr", bv, "is_Number"), ("attr", bv, "is_constant")]
+            if k[0] == "not" and k[1][0] == "bool" and k[1][1] == "and" and set(k[1][2]) in [{ct, nz} for ct in const_tests]:
+                return True, ""
+            return False, f"a factor is skipped unless `{av.show(k)}`; it may only be skipped when it has no free symbols AND is_nonzero"
+        return None, f"the remaining factors are {av.show(seq)[:100]}"
+
+    for conds, x in _branches(ml):
+        if x == av.C(False):
             continue
-        if not is_true:
-            ctx.fail(rule, key, f"returns {norm(v) if v is not None else None}: neither True nor False; the elision decision must be a definite boolean", f.where(r))
+        if x[0] == "call" and x[1] in ("all", "any") and len(x[2]) == 1 and x[2][0][0] == "comp":
+            outer = x[2][0]
+            rec_ok = len(outer[3]) == 1 and outer[3][0] == ("call", f.name, (("bv", outer[1]),), ()) and not outer[4]
+            if x[1] == "any" and rec_ok:
+                verdicts.append((False, f"a product is accepted as soon as *any* remaining factor is accepted ({av.show(x)[:100]}); every one of them must be"))
+                continue
+            if not rec_ok:
+                verdicts.append((None, f"the remaining factors are not each checked by {f.name} itself ({av.show(x)[:100]})"))
+                continue
+            okf, why_ = filter_ok(outer[2])
+            verdicts.append((okf, why_))
             continue
-        n_true += 1
-        in_pow = (f"isinstance({p}, Pow)", True) in chain_txt
-        in_mul = (f"isinstance({p}, Mul)", True) in chain_txt and (f"isinstance({p}, Pow)", False) in chain_txt or (f"isinstance({p}, Mul)", True) in chain_txt
-        if in_pow:
-            good = any(("is S.NegativeOne" in c or "== -1" in c or "is NegativeOne" in c) and pol for c, pol in chain_txt)
-            ctx.check(good, rule, key, "True for a**-1 only", f"returns True for a Pow without requiring the exponent to be -1 (conditions: {chain_txt})", f.where(r))
-        elif in_mul:
-            # either "no potentially-zero factor" or the else branch of the recursion loop
-            txts = " ".join(c for c, _ in chain_txt)
-            good = ("len(potentially_nonzero_args) == 0" in txts) or any(c.startswith("loopelse:") for c, _ in chain_txt)
-            ctx.check(good, rule, key, "True for a product whose factors are all accepted", f"returns True inside the Mul branch under unexpected conditions {chain_txt}", f.where(r))
-        else:
-            ctx.fail(rule, key, f"returns True for an expression that is neither a**-1 nor a product (conditions: {chain_txt}); the zero-division guard would be dropped for it", f.where(r))
-    ctx.check(n_true >= 1, rule, f.key("has-true"), "elision is possible", "fraction_numerator_is_nonzero never returns True", f.where())
-    # classification of constant factors and the recursion
-    tests = [norm(n.test).replace("sympy.", "") for n in ast.walk(f.node) if isinstance(n, ast.If)]
-    cls_ok = any("free_symbols" in t and "is_nonzero" in t and " and " in t for t in tests)
-    ctx.check(cls_ok, rule, f.key("certainly-nonzero-test"), "a factor is certainly non-zero only if it has no free symbols AND is_nonzero", f"the test that classifies a factor as certainly non-zero is not `len(e.free_symbols) == 0 and e.is_nonzero` (tests: {tests})", f.where())
-    rec_ok = any(t.replace(" ", "") .startswith(f"not{f.name}(") for t in tests)
-    ctx.check(rec_ok, rule, f.key("recursion"), "every remaining factor must itself be accepted", "no `if not fraction_numerator_is_nonzero(e): return False` test over the remaining factors", f.where())
-    # last statement: conservative default
-    last = f.node.body[-1]
-    dflt = None
-    if isinstance(last, ast.If):
-        tail = last
-        while isinstance(tail, ast.If) and tail.orelse:
-            nxt = tail.orelse
-            if len(nxt) == 1 and isinstance(nxt[0], ast.If):
-                tail = nxt[0]
+        if x == av.C(True):
+            empties = [c for c in conds if c[0] == "not" and filter_ok(c[1])[0] is not None]
+            if empties:
+                okf, why_ = filter_ok(empties[0][1])
+                verdicts.append((okf, why_))
             else:
-                dflt = nxt[-1]
-                break
-    elif isinstance(last, ast.Return):
-        dflt = last
-    ctx.check(isinstance(dflt, ast.Return) and isinstance(dflt.value, ast.Constant) and dflt.value.value is False, rule, f.key("default"), "anything else: False (guard kept)", "the default answer of fraction_numerator_is_nonzero is not `return False`", f.where())
+                verdicts.append((False, f"a product is accepted (True) under {[av.show(c) for c in conds]} without checking its factors"))
+            continue
+        verdicts.append((None, f"answer {av.show(x)[:100]} under {[av.show(c)[:60] for c in conds]}"))
+    bad = [w for ok_, w in verdicts if ok_ is False]
+    unknown = [w for ok_, w in verdicts if ok_ is None]
+    if bad:
+        ctx.fail(rule, f.key("product"), f"fraction_numerator_is_nonzero: {bad[0]}; a product with a factor that can vanish would lose its zero-division guard", f.where())
+    elif unknown:
+        ctx.undecided(rule, f.key("product"), f"the answer for a product is not understood: {unknown[0]}", f.where())
+    else:
+        ctx.ok(rule, f.key("product"), "a product is accepted when every factor that is not a non-zero constant is itself accepted", f.where())
+    ctx.check(av.find_all(v, "c") and any(x in (P, M) for x in av.find_all(v, "call")) and (pw != av.C(False) or ml != av.C(False)), rule, f.key("has-true"), "elision is possible", "fraction_numerator_is_nonzero never returns True", f.where())
 
 
 def check_delta_flow(ctx: Ctx, rule: str):
